@@ -382,6 +382,9 @@ func runSig(c *sigCase) (bool, error) {
 		return false, fmt.Errorf("HARNESS: the process log shows no sign that casket's %s handler received the signal (exit code %d)", c.Signal, res.ExitCode)
 	}
 	for _, o := range res.Obs {
+		if o.Err == "SLOW-MACHINE" {
+			return false, fmt.Errorf("HARNESS: step %s needed more than 10 s in a process starved of CPU: no verdict", o.Op)
+		}
 		if o.Hung {
 			return true, fmt.Errorf("step %s hung: %s", o.Op, o.Blocked)
 		}
